@@ -241,19 +241,13 @@ void BatchSpanProcessor::Export()
 
   do
   {
-    std::vector<std::unique_ptr<Recordable>> spans_arr;
-    size_t num_records_to_export;
     std::uint64_t notify_force_flush =
         synchronization_data_->force_flush_pending_sequence.load(std::memory_order_acquire);
-    if (notify_force_flush)
-    {
-      num_records_to_export = buffer_.size();
-    }
-    else
-    {
-      num_records_to_export =
-          buffer_.size() >= max_export_batch_size_ ? max_export_batch_size_ : buffer_.size();
-    }
+    // Everything queued before the flush sequence was read is exported before that sequence is
+    // published, in batches of at most max_export_batch_size_ records.
+    size_t num_records_pending = buffer_.size();
+    size_t num_records_to_export =
+        num_records_pending >= max_export_batch_size_ ? max_export_batch_size_ : num_records_pending;
 
     if (num_records_to_export == 0)
     {
@@ -261,20 +255,32 @@ void BatchSpanProcessor::Export()
       break;
     }
 
-    // Reserve space for the number of records
-    spans_arr.reserve(num_records_to_export);
+    do
+    {
+      std::vector<std::unique_ptr<Recordable>> spans_arr;
+      // Reserve space for the number of records
+      spans_arr.reserve(num_records_to_export);
 
-    buffer_.Consume(num_records_to_export,
-                    [&](CircularBufferRange<AtomicUniquePtr<Recordable>> range) noexcept {
-                      range.ForEach([&](AtomicUniquePtr<Recordable> &ptr) {
-                        std::unique_ptr<Recordable> swap_ptr = std::unique_ptr<Recordable>(nullptr);
-                        ptr.Swap(swap_ptr);
-                        spans_arr.push_back(std::unique_ptr<Recordable>(swap_ptr.release()));
-                        return true;
+      buffer_.Consume(num_records_to_export,
+                      [&](CircularBufferRange<AtomicUniquePtr<Recordable>> range) noexcept {
+                        range.ForEach([&](AtomicUniquePtr<Recordable> &ptr) {
+                          std::unique_ptr<Recordable> swap_ptr =
+                              std::unique_ptr<Recordable>(nullptr);
+                          ptr.Swap(swap_ptr);
+                          spans_arr.push_back(std::unique_ptr<Recordable>(swap_ptr.release()));
+                          return true;
+                        });
                       });
-                    });
 
-    exporter_->Export(nostd::span<std::unique_ptr<Recordable>>(spans_arr.data(), spans_arr.size()));
+      exporter_->Export(
+          nostd::span<std::unique_ptr<Recordable>>(spans_arr.data(), spans_arr.size()));
+
+      num_records_pending -= num_records_to_export;
+      num_records_to_export = num_records_pending >= max_export_batch_size_
+                                  ? max_export_batch_size_
+                                  : num_records_pending;
+    } while (num_records_to_export > 0);
+
     NotifyCompletion(notify_force_flush, exporter_, synchronization_data_);
   } while (true);
 
